@@ -17,7 +17,7 @@ import (
 
 // Item programs for the ID placeholder: a '|'-separated list of actions
 //   S<x> set placeholder to x (x may be empty)    R read it    G GetIdOrPlaceholder("")    E GetIdOrPlaceholder("explicit") (must not touch the placeholder)
-//   F fail (typed error)    P panic
+//   F fail (typed error)    P panic    N / NF forward another request message to an executor from inside the handler (NF: with a failing item)
 // and two whole-item programs refused by the router before any handler runs: U (operation without a route), X (critical extension)
 // The handler answers with the observations it made ("R=<v>;G=<v>").
 
@@ -62,6 +62,20 @@ func phHandler(yield bool) func(ctx context.Context, req *payloads.ActivateReque
 					return nil, err
 				}
 				obs = append(obs, "E="+v)
+			case 'N':
+				// forward another request message (two items: [R|Sn, R], or with a failing item for "NF") to an executor, with the
+				// context this handler was given: it is a request of its own, with a placeholder scope of its own
+				items := phNestedItems(a)
+				resp := phNested.HandleRequest(ctx, phRequest("n", items, false))
+				var in []string
+				for _, bi := range resp.BatchItem {
+					if pl, ok := bi.ResponsePayload.(*payloads.ActivateResponsePayload); ok && bi.ResultStatus == kmip.ResultStatusSuccess {
+						in = append(in, pl.UniqueIdentifier)
+					} else {
+						in = append(in, "!")
+					}
+				}
+				obs = append(obs, "N="+strings.Join(in, "/"))
 			case 'F':
 				return nil, kmipserver.Errorf(kmip.ResultReasonItemNotFound, "scripted failure")
 			case 'P':
@@ -70,6 +84,16 @@ func phHandler(yield bool) func(ctx context.Context, req *payloads.ActivateReque
 		}
 		return &payloads.ActivateResponsePayload{UniqueIdentifier: strings.Join(obs, ";")}, nil
 	}
+}
+
+// phNested is the executor that the 'N' action forwards to (set by phExecutor: the executor under test itself, or a second one).
+var phNested *kmipserver.BatchExecutor
+
+func phNestedItems(action string) []string {
+	if action == "NF" {
+		return []string{"Sn", "F", "R"}
+	}
+	return []string{"R|Sn", "R"}
 }
 
 // phModel is the reference: one string per request, empty at start, cleared when an item fails.
@@ -105,6 +129,9 @@ func phModel(items []string, stop bool) []string {
 				}
 			case 'E':
 				obs = append(obs, "E=explicit")
+			case 'N':
+				// a request of its own: starts empty, and nothing it does is seen by the forwarding request
+				obs = append(obs, "N="+strings.Join(phModel(phNestedItems(a), false), "/"))
 			case 'F', 'P':
 				failed = true
 			}
@@ -204,6 +231,7 @@ func phItemPrograms(maxActions int) []string {
 func phExecutor(yield, withMW bool) *kmipserver.BatchExecutor {
 	exec := kmipserver.NewBatchExecutor()
 	exec.Route(kmip.OperationActivate, kmipserver.HandleFunc(phHandler(yield)))
+	phNested = exec
 	if withMW {
 		exec.Use(func(next kmipserver.Next, ctx context.Context, msg *kmip.RequestMessage) (*kmip.ResponseMessage, error) { return next(ctx, msg) })
 		exec.BatchItemUse(func(next kmipserver.BatchItemNext, ctx context.Context, bi *kmip.RequestBatchItem) (*kmip.ResponseBatchItem, error) {
@@ -216,10 +244,22 @@ func phExecutor(yield, withMW bool) *kmipserver.BatchExecutor {
 // phSeqExhaustive: every batch of <=maxItems items over the item programs, options Continue/Stop, followed by a
 // probe request [R] with the same parent context (same "connection"), all through BatchExecutor.HandleRequest.
 func phSeqExhaustive(maxItems, maxActions int, withMW ...bool) func() {
+	return phSeqOver(maxItems, func() []string { return phItemPrograms(maxActions) }, false, withMW...)
+}
+
+// phNestedPrograms: item programs around the forwarding action N / NF (see phHandler).
+func phNestedPrograms() []string {
+	return []string{"", "Sa", "R", "G", "N", "NF", "Sa|N", "N|R", "Sa|N|R", "Sa|NF|R", "N|G", "F"}
+}
+
+func phSeqOver(maxItems int, programs func() []string, secondExecutor bool, withMW ...bool) func() {
 	return func() {
 		resetPackages()
 		exec := phExecutor(false, len(withMW) > 0 && withMW[0])
-		progs := phItemPrograms(maxActions)
+		if secondExecutor {
+			_ = phExecutor(false, false) // the forwarding target is another executor (phNested now points to it)
+		}
+		progs := programs()
 		parent := context.WithValue(context.Background(), shutConnKey{}, "conn")
 		n := 0
 		var rec func(items []string)
@@ -390,6 +430,12 @@ func init() {
 	})
 	register("ph-seq-exhaustive-t", func() *Scenario {
 		return &Scenario{Name: "ph-seq-exhaustive-t", Doc: "all batches of <=3 items x <=2 actions (+panic items), Continue/Stop, each followed by a probe request", Body: phSeqExhaustive(3, 2), MaxSteps: 200000000}
+	})
+	register("ph-seq-nested", func() *Scenario {
+		return &Scenario{Name: "ph-seq-nested", Doc: "all batches of <=3 items over programs in which a handler forwards another request message (2-3 items) to the same executor with its own context: the forwarded request has a placeholder scope of its own", Body: phSeqOver(3, phNestedPrograms, false), MaxSteps: 200000000}
+	})
+	register("ph-seq-nested-2exec", func() *Scenario {
+		return &Scenario{Name: "ph-seq-nested-2exec", Doc: "as ph-seq-nested, forwarding to a second executor, the first one having pass-through middlewares", Body: phSeqOver(3, phNestedPrograms, true, true), MaxSteps: 200000000}
 	})
 	register("ph-seq-exhaustive-mw", func() *Scenario {
 		return &Scenario{Name: "ph-seq-exhaustive-mw", Doc: "as ph-seq-exhaustive-t on an executor with a pass-through message middleware and batch-item middleware", Body: phSeqExhaustive(3, 2, true), MaxSteps: 200000000}
